@@ -85,6 +85,43 @@ def reduced_form_indices(T):
     return sorted(out)
 
 
+AD_ATOMS = ("bit", "bool", "bv", "u", "s", "enum", "sfix", "ufix")
+
+
+def ad_eligible(T):
+    """compositions of plain records, core cohdl.Array and atoms that contain at least one cohdl.Array:
+    these get the array construction-form (partial default list) wrapper"""
+    def ok(T):
+        k = T[0]
+        if k in AD_ATOMS:
+            return True
+        if k == "carr":
+            return ok(T[1])
+        if k == "rec":
+            return all(ok(f) for f in T[1])
+        return False
+
+    def has(T):
+        return T[0] == "carr" or (T[0] == "rec" and any(has(f) for f in T[1]))
+
+    return T[0] in ("carr", "rec") and ok(T) and has(T)
+
+
+def ad_forms(n):
+    """construction forms of a cohdl.Array with n elements: a default list with k = 0..n elements, no argument,
+    Null, Full"""
+    return [("d", k) for k in range(n + 1)] + [("none",), ("null",), ("full",)]
+
+
+def ad_nforms(T):
+    k = T[0]
+    if k == "carr":
+        return max(len(ad_forms(T[2])), ad_nforms(T[1]))
+    if k == "rec":
+        return max([ad_nforms(f) for f in T[1]] + [0])
+    return 0
+
+
 def apply_form(te, args, form):
     """constructor call text for type expression te, argument texts args (declared order)"""
     if form[0] == "pk":
@@ -479,6 +516,93 @@ class Renderer:
             return f"{pre}[{self._texpr_w(T[1], W)}, {T[2]}]"
         return self.texpr(T)
 
+    # ---- cohdl.Array construction forms -------------------------------------------------------
+    def _atom_literal(self, T, raw):
+        k = T[0]
+        w = L.width(T)
+        if k == "bit":
+            return f"Bit({bool(raw)})"
+        if k == "bool":
+            return repr(bool(raw))
+        if k == "bv":
+            return f'BitVector[{w}]("{format(raw, f"0{w}b")}")'
+        if k == "u":
+            return f"Unsigned[{w}]({raw})"
+        if k == "s":
+            return f"Signed[{w}]({L.signed_of(raw, w)})"
+        te = self.texpr(T)
+        if k == "enum":
+            under = self._atom_literal(T[2], raw)
+            return f"{te}._unsafe_init_({under})"
+        if k in ("sfix", "ufix"):
+            return f"{te}({L.fixed_number(k, T[1], T[2], raw)!r})"
+        raise ValueError(T)
+
+    def ad_plan(self, T, f):
+        """construction of T in array-form f.  returns (root_args, leaves):
+        root_args: constructor argument text of the ROOT object (default list / Null / Full / nothing for an array
+                   root, keyword arguments for a record root)
+        leaves:    [(access path, lo, width, type expr, const | None)]; const = default value of a leaf that lies
+                   inside the given default prefix of all its enclosing arrays (such a leaf is NOT driven);
+                   None for leaves that are driven from their documented slice of the input"""
+        leaves = []
+        counter = [0]
+
+        def args_of(T, lo, path, covered, in_arr, forced):
+            """constructor ARGUMENT text of a rec / carr node (also registers the leaves below it)"""
+            k = T[0]
+            if k == "rec":
+                args, off = [], lo
+                for i, fld in enumerate(T[1]):
+                    args.append(f"f{i}=" + ctor(fld, off, f"{path}.f{i}", covered, in_arr, forced))
+                    off += L.width(fld)
+                return ", ".join(args)
+            n, E = T[2], T[1]
+            ew = L.width(E)
+            forms = ad_forms(n)
+            form = forms[f % len(forms)]
+            if forced is not None:       # below a Null / Full array everything is that constant
+                for i in range(n):
+                    ctor(E, lo + i * ew, f"{path}[{i}]", covered, True, forced)
+                return "Null" if forced == 0 else "Full"
+            if form[0] == "d":
+                elems = []
+                for i in range(n):
+                    c = ctor(E, lo + i * ew, f"{path}[{i}]", covered and i < form[1], True, None)
+                    if i < form[1]:
+                        elems.append(c)
+                return "[" + ", ".join(elems) + "]"
+            if form[0] == "none":
+                for i in range(n):
+                    ctor(E, lo + i * ew, f"{path}[{i}]", False, True, None)
+                return ""
+            val = 0 if form[0] == "null" else 1
+            for i in range(n):
+                ctor(E, lo + i * ew, f"{path}[{i}]", covered, True, val if covered else None)
+            return "Null" if val == 0 else "Full"
+
+        def ctor(T, lo, path, covered, in_arr, forced):
+            """constructor text of a node"""
+            k = T[0]
+            w = L.width(T)
+            if k in AD_ATOMS:
+                g = counter[0]
+                counter[0] += 1
+                mask = (1 << w) - 1
+                if forced is not None and covered:
+                    leaves.append((path, lo, w, self.texpr(T), 0 if forced == 0 else mask))
+                    return "None"
+                if covered and in_arr:
+                    const = (((g + 1) * 5) & mask) if w > 1 else ((g + 1) & 1)
+                    leaves.append((path, lo, w, self.texpr(T), const))
+                    return self._atom_literal(T, const)
+                leaves.append((path, lo, w, self.texpr(T), None))
+                return self._atom_literal(T, 0)
+            return f"{self.texpr(T)}({args_of(T, lo, path, covered, in_arr, forced)})"
+
+        root_args = args_of(T, 0, "", True, False, None)
+        return root_args, leaves
+
     # ---- ports for views -------------------------------------------------------------------
     @staticmethod
     def port_type(v):
@@ -638,6 +762,58 @@ class Renderer:
                     body.append("            self.cbnull <<= std.to_bits(TYPE(Null))")
                     body.append("            self.cbfull <<= std.to_bits(TYPE(Full))")
                 body.append("")
+
+        # cohdl.Array construction forms (partial default lists, Null, Full, no argument) under Signal / Variable
+        self.ad_plans = []
+        if with_forms and ad_eligible(T):
+            nad = ad_nforms(T)
+            plans = [self.ad_plan(T, f) for f in range(nad)]
+            self.ad_plans = plans
+            is_arr = T[0] == "carr"
+            body.append(f"AD_NFORMS = {nad}")
+            body.append("AD_EXPECT = " + repr([[(lo, lw, c) for _, lo, lw, _, c in lv if c is not None] for _, lv in plans]))
+            body.append("def ad_make(f, Q):")
+            body.append('    """the object of construction form f; Q = None (constant), Signal or Variable"""')
+            for f, (ra, _) in enumerate(plans):
+                body.append(f"    if f == {f}:")
+                body.append(f"        return TYPE({ra}) if Q is None else Q[TYPE]({ra})")
+            body.append("")
+            for qual, deco, qexpr, op in (("signal", "std.concurrent", "std.Signal", "<<="),
+                                          ("variable", "std.sequential", "std.Variable", "@=")):
+                # one small entity per form (forms the compiler rejects must not hide the others)
+                # ADW: width and iteration length only (never width sensitive); AD: the serialised value
+                for f, (ra, lv) in enumerate(plans):
+                    for ename, data in ((f"ADW_{qual}_{f}", False), (f"AD_{qual}_{f}", True)):
+                        body.append(f"class {ename}(cohdl.Entity):")
+                        body.append(f"    inp = Port.input(BitVector[{w}])")
+                        if data:
+                            body.append(f"    o = Port.output(BitVector[{w}])")
+                        else:
+                            body.append("    wd = Port.output(Unsigned[6])")
+                            if is_arr:
+                                body.append("    n = Port.output(Unsigned[6])")
+                                body.append("    m = Port.output(Unsigned[6])")
+                        body.append("")
+                        body.append("    def architecture(self):")
+                        if qual == "signal":
+                            body.append(f"        x = {qexpr}[TYPE]({ra})")
+                        body.append(f"        @{deco}")
+                        body.append("        def logic():")
+                        if qual == "variable":
+                            body.append(f"            x = {qexpr}[TYPE]({ra})")
+                        for path, lo, lw, te, const in lv:
+                            if const is None:
+                                body.append(f"            x{path} {op} std.from_bits[{te}](self.inp[{lo + lw - 1}:{lo}])")
+                        if data:
+                            body.append("            self.o <<= std.to_bits(x)")
+                        else:
+                            body.append("            self.wd <<= std.to_bits(x).width")
+                            if is_arr:
+                                body.append("            self.n <<= len([e for e in x])")
+                                body.append("            self.m <<= len(x)")
+                        body.append("")
+        else:
+            body.append("AD_NFORMS = 0")
 
         # constants inside a synthesisable context
         if ct_patterns:
